@@ -34,7 +34,7 @@ NP_RE = re.compile(r"""^\$(?:\[(?:0|[1-9][0-9]*)\]|\['(?:[\x20-\x26\x28-\x5b\x5d
 
 def plan(tier, seed):
     n = 15 if tier == "quick" else 46
-    return [{"kind": "w0"}, {"kind": "scale"}, {"kind": "recursion-limit", "limit": None}, {"kind": "recursion-limit", "limit": 320}, {"kind": "threads", "rounds": 5 if tier == "quick" else 30}] + [{"n": 500 if tier == "quick" else 10000, "profile": ["unique", "mixed"][i % 2]} for i in range(n)]
+    return [{"kind": "w0"}, {"kind": "scale"}, {"kind": "recursion-limit", "limit": None}, {"kind": "recursion-limit", "limit": 320}, {"kind": "threads", "rounds": 9 if tier == "quick" else 30}] + [{"n": 500 if tier == "quick" else 10000, "profile": ["unique", "mixed"][i % 2]} for i in range(n)]
 
 
 def install():
@@ -244,9 +244,12 @@ def run_threads(ctx, rounds):
     qs = [jsonpath.compile(t) for t in ("$[*]", "$[-1]", "$.*[0]", "$[?@.id >= 0]", "$..[0]", "$[1::7]")]
     size = 40
     for rnd in range(rounds):
-        size = int(size * r.choice([1.7, 2.3, 3.1])) + r.randint(1, 9)
+        size = int(size * r.choice([2.1, 2.3, 3.1])) + r.randint(1, 9)
         errors = []
         checked = [0]
+        import threading
+
+        barrier = threading.Barrier(8)
 
         def worker(wid, rr):
             try:
@@ -257,7 +260,11 @@ def run_threads(ctx, rounds):
         def _work(wid, rr):
             n = size + wid
             doc = [{"id": i, "w": wid} for i in range(n)]
-            for q in rr.sample(qs, 3):
+            try:
+                barrier.wait(20)   # all threads ask for never-produced indices at the same moment
+            except threading.BrokenBarrierError:
+                pass
+            for q in [qs[1]] + rr.sample(qs, 3):
                 for m in q.finditer(doc):
                     parts = tuple(m.parts)
                     checked[0] += 1
@@ -271,7 +278,7 @@ def run_threads(ctx, rounds):
                         errors.append({"query": str(q), "parts": list(parts), "path": m.path, "expected_path": normalized_path(parts), "thread": wid, "array_length": n})
                         return
 
-        st = stress(worker, nthreads=8, files=("selectors.py", "serialize.py", "match.py", "path.py"), seed=r.random(), prob=0.01)
+        st = stress(worker, nthreads=8, files=("selectors.py", "serialize.py", "match.py", "path.py"), seed=r.random(), prob=0.01 if rnd % 2 else 0.2)
         ctx.evaluation(checked[0])
         ctx.count("matches_checked_under_threads", checked[0])
         ctx.count("yields_injected", st["yields"])
